@@ -29,7 +29,24 @@ ABSPATH = z3.Function('abspath', z3.StringSort(), z3.StringSort())
 BASENAME = z3.Function('basename', z3.StringSort(), z3.StringSort())
 
 
-_FRESH = itertools.count()
+class _Counter:
+    """process-global counter for fresh names; reset() only at the start of a worker process, before any term is built (keeps names - and with them
+    solver run times - independent of what the parent process did before forking)"""
+    def __init__(self):
+        self.n = 0
+
+    def __next__(self):
+        self.n += 1
+        return self.n - 1
+
+    def __iter__(self):
+        return self
+
+    def reset(self):
+        self.n = 0
+
+
+_FRESH = _Counter()
 
 
 class S:
